@@ -18,7 +18,7 @@ PROPERTY_ID = 'C13'
 
 RULE = ('Model sizes are enumerated over everything that fits (co_oxidation order 2..6, signaling_cascade d 2..4, toll_station '
         '2..5 lanes x 1..3 cars, two_step m 1..3, qft/iqft n 1..7, qfa, qfan 1..5, and in TT form only: co_oxidation up to order 14, toll_station up to 9 lanes, signaling_cascade up to d 7, two_step m 4..5, qfan up to 9 adders, exciton_chain / ising up to 14 sites; shor a in units mod 15, exciton_chain 2..7 '
-        'sites, ising 2..8 sites, fpu d 3..6, kuramoto d 2..6, fractals dimension 1..6 x level 1..8 as far as 3^(level*dim) <= 6e5 / 6e6 entries) and combined with '
+        'sites, ising 2..8 sites, fpu d 2..6, kuramoto d 2..6, fractals dimension 1..6 x level 1..8 as far as 3^(level*dim) <= 6e5 / 6e6 entries) and combined with '
         'Hypothesis-drawn rate constants, couplings, frequencies, evaluation points. Oracles are the defining formulas: column '
         'sums / sign pattern (dense, or in TT form: norm of 1^T A by transfer matrices plus sampled off-diagonal entries through '
         'core slices), G^H G = I (dense, or ||G^H G - I||_F by harness-side TT arithmetic), bit-reversed DFT for the product of '
@@ -252,7 +252,7 @@ def physics_case(draw):
         c['J'] = draw(NUM(-2, 2))
         c['h'] = draw(NUM(-2, 2))
     elif model == 'fpu':
-        c['d'] = draw(st.integers(3, 6))
+        c['d'] = draw(st.integers(2, 6))
     else:
         c['d'] = draw(st.integers(2, 6))
     return c
